@@ -622,21 +622,27 @@ func (s *State) ShadowedSibling(subj string, reqCtx map[string]any) bool {
 	}
 	wild := st + ":*"
 	for _, idxs := range s.byOR {
-		sat, notSat := false, false
+		// the de-duplication keeps ONE of the tuples: whenever two of them would be treated
+		// differently (satisfied / to be skipped / failing to evaluate), which one survives changes the
+		// outcome — a lost grant, or a lost evaluation error
+		sat, skip, fails := false, false, false
 		for _, i := range idxs {
 			t := s.Tuples[i]
 			if t.User != subj && t.User != wild {
 				continue
 			}
-			// usable = valid for the model and condition satisfied; anything else (an invalid leftover,
-			// an unsatisfied or unevaluable condition) is a tuple the engine must skip
-			if s.M.ValidForRead(t) && s.M.EvalCond(t, reqCtx) == CondSat {
+			switch {
+			case !s.M.ValidForRead(t):
+				skip = true
+			case s.M.EvalCond(t, reqCtx) == CondSat:
 				sat = true
-			} else {
-				notSat = true
+			case s.M.EvalCond(t, reqCtx) == CondErr:
+				fails = true
+			default:
+				skip = true
 			}
 		}
-		if sat && notSat {
+		if (sat && (skip || fails)) || (skip && fails) {
 			return true
 		}
 	}
